@@ -1,5 +1,5 @@
 (** Property C02 — quantities are never silently wrapped, truncated or dropped. *)
-From Tx3 Require Import Base Assets Assets_proofs Tir Reduce PlutusData Compile Compile_proofs.
+From Tx3 Require Import Base Assets Assets_proofs Tir Reduce PlutusData Compile Compile_proofs Compile_values.
 
 Theorem C02_u64_exact_or_error : forall z v, number_into_u64 z = Ok v -> v = z /\ (0 <= z < 2 ^ 64)%Z.
 Proof. exact number_into_u64_exact. Qed.
@@ -23,6 +23,14 @@ Proof. exact compile_value_negative_lovelace_refuted. Qed.
 Theorem C02_negative_native_refuted :
   exists p, length p = 28%nat /\ compile_value (EBytes p, EBytes [], ENumber (-5)) = Ok (VCoin 0).
 Proof. exact compile_value_negative_native_refuted. Qed.
+(** the lovelace of an output is the exact sum of the lovelace of its entries - the running sum
+    is checked at every step - and a sum that does not fit the coin field is refused *)
+Theorem C02_output_coin_is_exact_sum : forall vs c m,
+  aggregate_values vs = Ok (c, m) -> c = coin_sum vs /\ (vs <> [] -> (c < 2 ^ 64)%Z).
+Proof. exact aggregate_coin_exact. Qed.
+Theorem C02_output_coin_overflow_refused : forall vs,
+  (forall v, v ∈ vs -> (0 <= coin_of v)%Z) -> (2 ^ 64 <= coin_sum vs)%Z -> forall r, aggregate_values vs <> Ok r.
+Proof. exact aggregate_coin_overflow_refused. Qed.
 (** the balance equation of a template whose change output is written as
     inputs + mint - burn - fees - (the other outputs): consumed plus minted value equals produced
     plus burned value plus the fee, asset class by asset class, over unbounded integers *)
@@ -40,3 +48,5 @@ Print Assumptions C02_mint_exact_or_error.
 Print Assumptions C02_negative_lovelace_refuted.
 Print Assumptions C02_negative_native_refuted.
 Print Assumptions C02_balance_equation.
+Print Assumptions C02_output_coin_is_exact_sum.
+Print Assumptions C02_output_coin_overflow_refused.
